@@ -223,6 +223,13 @@ theorem c19_nanos_plain_add_wraps :
 theorem c19_gen_formatters (tm : Tm) (f : Fmt) (short : Bool) : formatTextGen tm f short = formatText tm f short :=
   formatTextGen_eq tm f short
 
+theorem c19_gen_local_formatters (z : Zone) (dt : DateTime) (f : Fmt) (short : Bool) :
+    formatLocalText z dt f short =
+      match f, short with
+      | .rfc822, false => some (fmtRfc822Body (localtime z dt.timestamp) ++ z.name)
+      | f, short => formatText (localtime z dt.timestamp) f short :=
+  formatLocalText_eq z dt f short
+
 theorem c19_gen_month_table : ∀ m : Fin 12, monthNumber (monthName (m.val : Int) ++ [32]) = some m.val := monthTable_ok
 
 theorem c19_gen_constants :
